@@ -485,10 +485,21 @@ func trSExpr(pi *pkgInfo, e ast.Expr) string {
 		if z, ok := coqZ(tv.Value); ok {
 			return "(XConst " + z + ")"
 		}
+		if tv.Value.Kind() == constant.Bool {
+			if constant.BoolVal(tv.Value) {
+				return "(XConst 1%Z)"
+			}
+			return "(XConst 0%Z)"
+		}
 	}
 	switch x := e.(type) {
 	case *ast.ParenExpr:
 		return trSExpr(pi, x.X)
+	case *ast.UnaryExpr:
+		if x.Op == token.NOT {
+			return "(XNot " + trSExpr(pi, x.X) + ")"
+		}
+		fail(pi, e, "unary operator %s", x.Op)
 	case *ast.Ident:
 		if v, ok := pi.info.Uses[x].(*types.Var); ok {
 			if _, isSl := v.Type().Underlying().(*types.Slice); isSl {
@@ -500,6 +511,12 @@ func trSExpr(pi *pkgInfo, e ast.Expr) string {
 	case *ast.BinaryExpr:
 		if isFloat(pi.info.Types[x.X].Type) || isFloat(pi.info.Types[x.Y].Type) {
 			fail(pi, e, "floating-point arithmetic")
+		}
+		if id, ok := x.Y.(*ast.Ident); ok && id.Name == "nil" && x.Op == token.EQL {
+			if n, ok := sliceIdent(pi, x.X); ok {
+				return fmt.Sprintf("(XIsNil %q)", n)
+			}
+			fail(pi, e, "comparison with nil")
 		}
 		if x.Op == token.QUO {
 			return fmt.Sprintf("(XDiv %s %s %s)", coqTy(pi, e, tv.Type), trSExpr(pi, x.X), trSExpr(pi, x.Y))
@@ -593,12 +610,56 @@ func writesTo(b *ast.BlockStmt, name string) bool {
 	return found
 }
 
-func trSBlock(pi *pkgInfo, b *ast.BlockStmt) string {
+func endsInContinue(b *ast.BlockStmt) bool {
+	if len(b.List) == 0 {
+		return false
+	}
+	br, ok := b.List[len(b.List)-1].(*ast.BranchStmt)
+	return ok && br.Tok == token.CONTINUE && br.Label == nil
+}
+
+// a statement list; `if c { A; continue }; R` is printed as `if c { A } else { R }` (the same control flow without the
+// jump), a `continue` that ends the list is dropped; any other `continue` is refused
+func trSList(pi *pkgInfo, list []ast.Stmt) string {
 	parts := []string{}
-	for _, s := range b.List {
+	for i, s := range list {
+		if br, ok := s.(*ast.BranchStmt); ok {
+			if br.Tok == token.CONTINUE && br.Label == nil && i == len(list)-1 {
+				break
+			}
+			fail(pi, s, "branch statement")
+		}
+		if is, ok := s.(*ast.IfStmt); ok && is.Init == nil && is.Else == nil && endsInContinue(is.Body) {
+			parts = append(parts, fmt.Sprintf("TIf %s\n %s\n %s", trSExpr(pi, is.Cond), trSList(pi, is.Body.List), trSList(pi, list[i+1:])))
+			break
+		}
 		parts = append(parts, trSStmt(pi, s))
 	}
 	return "[" + strings.Join(parts, ";\n ") + "]"
+}
+
+func trSBlock(pi *pkgInfo, b *ast.BlockStmt) string {
+	return trSList(pi, b.List)
+}
+
+func assignsTo(b *ast.BlockStmt, name string) bool {
+	found := false
+	ast.Inspect(b, func(n ast.Node) bool {
+		switch x := n.(type) {
+		case *ast.AssignStmt:
+			for _, l := range x.Lhs {
+				if id, ok := l.(*ast.Ident); ok && id.Name == name {
+					found = true
+				}
+			}
+		case *ast.IncDecStmt:
+			if id, ok := x.X.(*ast.Ident); ok && id.Name == name {
+				found = true
+			}
+		}
+		return !found
+	})
+	return found
 }
 
 func trSStmt(pi *pkgInfo, s ast.Stmt) string {
@@ -657,6 +718,45 @@ func trSStmt(pi *pkgInfo, s ast.Stmt) string {
 			return fmt.Sprintf("TStore %q %s %s", n, trSExpr(pi, l.Index), trSExpr(pi, rhs))
 		}
 		fail(pi, s, "assignment form")
+	case *ast.DeclStmt:
+		gd, ok := x.Decl.(*ast.GenDecl)
+		if !ok || gd.Tok != token.VAR {
+			fail(pi, s, "declaration")
+		}
+		var ds []string
+		for _, sp := range gd.Specs {
+			vs := sp.(*ast.ValueSpec)
+			if len(vs.Values) != 0 {
+				fail(pi, s, "var with a value")
+			}
+			for _, id := range vs.Names {
+				v := pi.info.Defs[id].(*types.Var)
+				ds = append(ds, fmt.Sprintf("TDecl %q %s (XConst 0%%Z)", id.Name, coqTy(pi, s, v.Type())))
+			}
+		}
+		return strings.Join(ds, ";\n ")
+	case *ast.ForStmt:
+		// for i = 0; i < len(s); i++ { body }, i a variable declared before, not assigned in the body, s not assigned in it
+		init, ok1 := x.Init.(*ast.AssignStmt)
+		cond, ok2 := x.Cond.(*ast.BinaryExpr)
+		post, ok3 := x.Post.(*ast.IncDecStmt)
+		if !ok1 || !ok2 || !ok3 || init.Tok != token.ASSIGN || len(init.Lhs) != 1 || cond.Op != token.LSS || post.Tok != token.INC {
+			fail(pi, s, "loop form")
+		}
+		iv, okA := init.Lhs[0].(*ast.Ident)
+		zero := pi.info.Types[init.Rhs[0]].Value
+		ci, okB := cond.X.(*ast.Ident)
+		pv, okC := post.X.(*ast.Ident)
+		lc, okD := cond.Y.(*ast.CallExpr)
+		if !okA || !okB || !okC || !okD || zero == nil || zero.Kind() != constant.Int || constant.Sign(zero) != 0 || ci.Name != iv.Name || pv.Name != iv.Name ||
+			types.ExprString(lc.Fun) != "len" || len(lc.Args) != 1 {
+			fail(pi, s, "loop form")
+		}
+		sn, okE := sliceIdent(pi, lc.Args[0])
+		if !okE || assignsTo(x.Body, iv.Name) || assignsTo(x.Body, sn) {
+			fail(pi, s, "loop form")
+		}
+		return fmt.Sprintf("TForLen %q %q\n %s", iv.Name, sn, trSBlock(pi, x.Body))
 	case *ast.IncDecStmt:
 		op := "OAdd"
 		if x.Tok == token.DEC {
@@ -724,6 +824,14 @@ func trSStmt(pi *pkgInfo, s ast.Stmt) string {
 		vv := pi.info.Defs[v].(*types.Var)
 		return fmt.Sprintf("TRangeIV %q %q %s %q\n %s", k.Name, v.Name, elemTy(pi, s, vv.Type()), n, trSBlock(pi, x.Body))
 	case *ast.ReturnStmt:
+		if len(x.Results) == 2 {
+			errText := types.ExprString(x.Results[1])
+			if errText == "nil" {
+				errText = ""
+			}
+			// a Coq string literal: a quote is written twice
+			return fmt.Sprintf("TReturnIntErr %s \"%s\"", trSExpr(pi, x.Results[0]), strings.ReplaceAll(errText, "\"", "\"\""))
+		}
 		if len(x.Results) == 1 {
 			if n, ok := sliceIdent(pi, x.Results[0]); ok {
 				return fmt.Sprintf("TReturn %q", n)
@@ -793,8 +901,11 @@ func emitSliceFunc(out *strings.Builder, pi *pkgInfo, name string) {
 						params = append(params, fmt.Sprintf("(%q, %s)", id.Name, elemTy(pi, p, sl.Elem())))
 					}
 				}
-				if fd.Type.Results == nil || len(fd.Type.Results.List) != 1 || len(fd.Type.Results.List[0].Names) != 0 {
+				if fd.Type.Results == nil || len(fd.Type.Results.List) < 1 || len(fd.Type.Results.List) > 2 || len(fd.Type.Results.List[0].Names) != 0 {
 					fail(pi, fd, "result list")
+				}
+				if len(fd.Type.Results.List) == 2 && (types.ExprString(fd.Type.Results.List[0].Type) != "int" || types.ExprString(fd.Type.Results.List[1].Type) != "error") {
+					fail(pi, fd, "two results that are not (int, error)")
 				}
 				ast.Inspect(fd.Body, func(n ast.Node) bool {
 					switch x := n.(type) {
@@ -815,7 +926,17 @@ func emitSliceFunc(out *strings.Builder, pi *pkgInfo, name string) {
 								declare(id)
 							}
 						}
-					case *ast.FuncLit, *ast.DeclStmt, *ast.GoStmt, *ast.DeferStmt:
+					case *ast.DeclStmt:
+						if gd, ok := x.Decl.(*ast.GenDecl); ok && gd.Tok == token.VAR {
+							for _, sp := range gd.Specs {
+								for _, id := range sp.(*ast.ValueSpec).Names {
+									declare(id)
+								}
+							}
+						} else {
+							fail(pi, n, "declaration")
+						}
+					case *ast.FuncLit, *ast.GoStmt, *ast.DeferStmt:
 						fail(pi, n, "statement %T", n)
 					}
 					return true
@@ -1015,6 +1136,7 @@ func main() {
 		}},
 		{"client", func(pi *pkgInfo) {
 			emitSliceFunc(&out, pi, "cobsEncode")
+			emitSliceFunc(&out, pi, "cobsDecodeInplace")
 		}},
 		{"store", func(pi *pkgInfo) {
 			emitLocalString(&out, pi, "go_store_NewSqliteDb_pragmas", "NewSqliteDb", "pragmas")
